@@ -2900,6 +2900,9 @@ class Transport(threading.Thread, ClosingContextManager):
         self.server_extensions = extensions
 
     def _parse_newkeys(self, m):
+        if self.K is None:
+            # no key exchange has produced fresh keys: nothing to switch to
+            raise SSHException("Received NEWKEYS outside of a key exchange")
         self._log(DEBUG, "Switch to new keys ...")
         self._activate_inbound()
         # can also free a bunch of stuff here
